@@ -3,6 +3,9 @@
 import json, os, re, sys, glob
 
 DESC = {
+ "r7-C12": ("C12", "Publish.SetQoS rewritten as one mask-and-or whose keep-mask leaves out DUP: every SetQoS clears the DUP flag", "SetDuplicate(true) followed by any SetQoS"),
+ "r7-C14": ("C14", "new buffer.getBinary returns a sub-slice of the input; Connect.UnmarshalBinary uses it for the will payload", "a CONNECT with a non-empty will payload decoded with UnmarshalBinary from a caller-owned buffer that is overwritten or reused afterwards"),
+ "r7-C17": ("C17", "Publish.WellFormed returns nil at once for an empty topic name with a topic alias, skipping the QoS and packet identifier rules", "empty topic, topic alias set, and QoS 3 or QoS 1/2 with packet identifier 0"),
  "r6-C01a": ("C01", "ConnAck.properties writes the Maximum QoS property only for values below 2 (framed as spec compliance)", "a CONNACK built with SetMaxQoS(2): the decoded packet reports 0"),
  "r6-C01b": ("C01", "getAny rejects a repeated property identifier (bit set of identifiers seen), exempting only user properties", "a PUBLISH with two or more subscription identifiers"),
  "r6-C01c": ("C01", "Connect.UnmarshalBinary reads the password only inside the user-name branch", "a CONNECT with a password but no user name: the decoded packet has no password"),
